@@ -170,6 +170,12 @@ def replay_doc(cfg, inp, out):
             warnings.simplefilter("ignore")
             ev = ae._convert_to_ev(doc, offset, period, voltage, pw, max_len, bp, ff)
     except Exception as e:  # noqa
+        if cfg["bp"] == "fit" and out["batt"].get("mustfit") and cfg["ff"]:
+            # the request is exactly what force_feasible capped it to, and a menu battery holds it in its linear stage
+            # (BoundaryFits in EventGen.tla): refusing the session is not an answer
+            return {"field": "fit-refuses-force-feasible-request", "spec": "a session whose battery takes the capped request",
+                    "impl": "%s: %s" % (type(e).__name__, e), "note": "request %r W*min = 32 A * %d V * %d periods * %d min"
+                    % (out["req"], cfg["V"], out["stay"], cfg["P"])}
         if cfg["bp"] == "fit" and out["batt"]["fit"]["verdict"] != "feasible":
             return None     # no battery of the menu can take the request in the stay: refusing is the only answer
         return {"field": "exception", "spec": "a session", "impl": "%s: %s" % (type(e).__name__, e)}
